@@ -18,7 +18,8 @@ EXPLANATION = (
     "kind, aux type and array subtype tables (match-arm tables from type-checked HIR), missing-value sentinels agree; "
     "(R7) reg2bin geometry constants (shifts 14..26 step 3, offsets ((1<<k)-1)/7) and UNMAPPED_BIN = 4680."
     " (R8) reused destination: every entry->Ok path of the eager decoder overwrites or clears each of the twelve RecordBuf columns (whole-object store, clear, or a callee that definitely resets its parameter), so a record decoded into a reused buffer carries nothing of the previous one."
-    " (R9) record framing on the read path: the block_size prefix loop advances (never overwrites) its cursor and returns Ok only when nothing or everything was read.")
+    " (R9) record framing on the read path: the block_size prefix loop advances (never overwrites) its cursor and returns Ok only when nothing or everything was read."
+    " (R10) writer scratch buffer: the BAM writers clear their record buffer on every path before the encoder fills it, so the block written is exactly this record.")
 ASSUMPTIONS = ["interval reasoning is dominance-based, not path-sensitive; what it cannot prove is tabled with a reason",
                "match tables are read from type-checked HIR patterns; values computed by arithmetic are out of reach"]
 NOT_DECIDED = ["whole-record equality over all field values", "aux value range boundaries, 4-bit base packing for odd lengths (unit-test territory)",
